@@ -219,14 +219,15 @@ def o_sort(c):
     return None
 
 
-def check_slice(a, d, i, j, r):
-    """the slice clauses that C11 and C07 share; `r` = a.slice(i, j)"""
+def check_slice(a, d, i, j, r, globals_idx=(0, 1, 2, 3, 4, 5)):
+    """the slice clauses that C11 and C07 share; `r` = a.slice(i, j); globals_idx = which global annotations must be kept
+    (isotope, static, labile, unknown, charge, adducts)"""
     n = len(a._sequence)
     if cc.res(r) != cc.res(a)[i:j]:
         return f'residues/mods of slice [{i},{j}) are {cc.res(r)} instead of {cc.res(a)[i:j]}'
     if cc.out_of_range_keys(r):
         return f'slice carries residue mods outside its range: {cc.out_of_range_keys(r)}'
-    if cc.glob(r) != cc.glob(a):
+    if [cc.glob(r)[x] for x in globals_idx] != [cc.glob(a)[x] for x in globals_idx]:
         return f'global annotations changed: {cc.glob(r)} vs {cc.glob(a)}'
     t = cc.term(a)
     expt = (t[0] if i == 0 else 'N', t[1] if j == n else 'N')
